@@ -49,7 +49,67 @@ def failures_for(prop):
     return [(i, m) for i, m in FAILURES if prop in RELEVANT.get(i, ALL_PROPS)]
 
 
+def _settle_global_merge():
+    """`mergedOptions` (which [global] options of an included file reach the result) re-established by
+    EXECUTION: for every option of the kept list of fields, the real loader reads a main file that sets
+    the option to A and includes a file that sets it to B; the option is merged iff B shows in the
+    result.  Complete over the options (the domain is the field list)."""
+    pend = [(i, m) for i, m in FAILURES if i == "global_merge"]
+    if not pend:
+        return
+    import shutil
+    d = os.path.join(vlib.BUILD, "scratch", "gen-settle-%d" % os.getpid())
+    try:
+        text = open(os.path.join(vlib.LEAN, "AcmedVerif", "Gen", "GlobalMerge.lean")).read()
+        fields = json.loads(re.search(r"def globalOptions : List String := (\[.*\])", text).group(1))
+        merged = json.loads(re.search(r"def mergedOptions : List String := (\[.*\])", text).group(1))
+        shapes = [('"value-a"', '"value-b"'), ("384", "416"), ('["item-a"]', '["item-b"]'), ('{ K = "a" }', '{ L = "b" }')]
+        shutil.rmtree(d, ignore_errors=True)
+        ops, meta = [], []
+        for f in fields:
+            for k, (a, b) in enumerate(shapes):
+                for which, (ma, inc) in (("a", (a, None)), ("ab", (a, b))):
+                    dd = os.path.join(d, "%s-%d-%s" % (f, k, which))
+                    os.makedirs(dd)
+                    with open(os.path.join(dd, "main.toml"), "w") as fh:
+                        fh.write(('include = ["inc.toml"]\n' if inc else "") + "[global]\n%s = %s\n" % (f, ma))
+                    if inc:
+                        with open(os.path.join(dd, "inc.toml"), "w") as fh:
+                            fh.write("[global]\n%s = %s\n" % (f, inc))
+                    ops.append({"op": "c14_cnf", "path": os.path.join(dd, "main.toml")})
+                    meta.append((f, k, which))
+        res = vlib.probe(ops, timeout=600)
+        got = {}
+        for (f, k, which), r in zip(meta, res):
+            got[(f, k, which)] = r.get("cnf", {}).get("global", {}).get(f) if isinstance(r, dict) and "cnf" in r else None
+        by_exec = []
+        for f in fields:
+            ks = [k for k in range(len(shapes)) if got.get((f, k, "a")) is not None and got.get((f, k, "ab")) is not None]
+            if not ks:
+                raise GenError("no value shape loads for option %s" % f)
+            if got[(f, ks[0], "ab")] != got[(f, ks[0], "a")]:
+                by_exec.append(f)
+        if sorted(by_exec) != sorted(merged):
+            _fail("global_merge", "and by execution the included file's value reaches the result for %s, the kept list says %s"
+                  % (sorted(by_exec), sorted(merged)))
+            return
+    except Exception as e:
+        _fail("global_merge", "(not re-established by execution: %s)" % e)
+        return
+    finally:
+        shutil.rmtree(d, ignore_errors=True)
+    for x in pend:
+        FAILURES.remove(x)
+    SETTLED.append(("global_merge", "source shape not recognised (%s); the kept list of merged options was re-established "
+                    "by loading a two-file configuration per option with the compiled loader" % pend[0][1]))
+
+
 def settle_by_execution():
+    _settle_global_merge()
+    _settle_units()
+
+
+def _settle_units():
     """A table whose SOURCE TEXT is no longer recognised can still be re-established by EXECUTION when
     its domain is small enough to enumerate: the unit table of duration.rs is then read off the
     compiled `parse_duration("1<c>")` for every single character c of Latin-1 (plus a few others); if
